@@ -233,6 +233,8 @@ def make_input_plan(T, variant, k=3, **kw):
         return ctx, NoFieldInput(ctx)
     if variant == "nested":
         return ctx, NestedInput(ctx)
+    if variant == "twobase":
+        return ctx, TwoBaseInput(ctx)
     return ctx, HistInput(ctx, k, hard=kw.get("hard", False))
 
 
@@ -554,7 +556,86 @@ def nested_main(S, env):
     return True
 
 
+# ------------------------------------------------------------------ one Discriminator object, two hierarchies
+TB_TAGS = ["v1", "sq", "dog", "zz"]
+
+
+class TwoBaseInput(symval.Node):
+    """tags at the two positions, and an earlier call (none / both 'v1' / ('sq', 'dog'))"""
+
+    def __init__(self, ctx):
+        self.t0 = ctx.sel(4)
+        self.t1 = ctx.sel(4)
+        self.warm = ctx.sel(3)
+        self.x = ctx.new("i", "int")
+
+    def make(self, env):
+        return pick(env[self.t0], 4), pick(env[self.t1], 4), pick(env[self.warm], 3)
+
+
+def build_twobase(style):
+    """Shape <- Circle('v1'), Square('sq'); Animal <- Cat('v1'), Dog('dog'); ONE Discriminator instance annotates both bases.
+    style: tuple (one field typed Tuple[Annotated[Shape, D], Annotated[Animal, D]]) | fields (two fields) | codec"""
+    ns = lambda q, **kw: dict({"__module__": __name__, "__qualname__": q}, **kw)
+    F = dataclasses.field
+    D = Discriminator(field="type", include_subtypes=True)
+    mk = lambda name, bases, tag=None: dataclasses.make_dataclass(
+        name, [("x", int, F(default=0))] if not tag else [], bases=bases, namespace=ns(name, **({"type": tag} if tag else {})))
+    cls = {}
+    cls["Shape"] = mk("TShape", ())
+    globals()["TShape"] = cls["Shape"]
+    cls["Animal"] = mk("TAnimal", ())
+    globals()["TAnimal"] = cls["Animal"]
+    for name, base, tag in (("Circle", "Shape", "v1"), ("Square", "Shape", "sq"), ("Cat", "Animal", "v1"), ("Dog", "Animal", "dog")):
+        cls[name] = mk("T" + name, (cls[base],), tag)
+        globals()["T" + name] = cls[name]
+    A0, A1 = typing.Annotated[cls["Shape"], D], typing.Annotated[cls["Animal"], D]
+    if style == "tuple":
+        H = dataclasses.make_dataclass("THolder", [("pair", typing.Tuple[A0, A1])], bases=(DataClassDictMixin,), namespace=ns("THolder"))
+        globals()["THolder"] = H
+        dec = lambda d0, d1: H.from_dict({"pair": [d0, d1]}).pair
+    elif style == "fields":
+        H = dataclasses.make_dataclass("THolder", [("s", A0), ("a", A1)], bases=(DataClassDictMixin,), namespace=ns("THolder"))
+        globals()["THolder"] = H
+
+        def dec(d0, d1):
+            h = H.from_dict({"s": d0, "a": d1})
+            return (h.s, h.a)
+    else:
+        dd = BasicDecoder(typing.Tuple[A0, A1]).decode
+        dec = lambda d0, d1: dd([d0, d1])
+    return cls, dec
+
+
+def twobase_main(S, env):
+    t0, t1, warm = S.node.make(env)
+    with notrace():
+        cls, dec = build_twobase(S.fam_args["style"])
+        if warm:
+            w = (("v1", "v1"), ("sq", "dog"))[warm - 1]
+            call(dec, {"type": w[0], "x": 1}, {"type": w[1], "x": 2})
+        want0 = {"v1": cls["Circle"], "sq": cls["Square"]}.get(TB_TAGS[t0])
+        want1 = {"v1": cls["Cat"], "dog": cls["Dog"]}.get(TB_TAGS[t1])
+        st, r = call(dec, {"type": TB_TAGS[t0], "x": 3}, {"type": TB_TAGS[t1], "x": 4})
+        if want0 is None or want1 is None:
+            if st == "ok":
+                return fail("C12/two-bases:accepted-foreign-tag", tags=(TB_TAGS[t0], TB_TAGS[t1]), got=r, warm=warm)
+            e = r
+            while isinstance(e, InvalidFieldValue) and (e.__context__ or e.__cause__):
+                e = e.__context__ or e.__cause__
+            if type(e) is not SuitableVariantNotFoundError:
+                return fail("C12/two-bases:wrong-exception:%s" % type(e).__name__, tags=(TB_TAGS[t0], TB_TAGS[t1]), warm=warm)
+            return True
+        if st != "ok":
+            return fail("C12/two-bases:raised:%s" % type(r).__name__, tags=(TB_TAGS[t0], TB_TAGS[t1]), warm=warm, exc=r)
+        if type(r[0]) is not want0 or type(r[1]) is not want1 or r[0].x != 3 or r[1].x != 4:
+            return fail("C12/two-bases:wrong-class", tags=(TB_TAGS[t0], TB_TAGS[t1]), got=r, warm=warm)
+    return True
+
+
 def main(S, env):
+    if S.variant == "twobase":
+        return twobase_main(S, env)
     if S.variant == "nested":
         return nested_main(S, env)
     if S.variant == "nofield":
@@ -563,6 +644,11 @@ def main(S, env):
 
 
 def twin(S, env):
+    if S.variant == "twobase":
+        t0, t1, warm = S.node.make(env)
+        if not (t0 == 1 and t1 == 0 and warm == 2):
+            return True
+        return not main(S, env)
     if S.variant == "nested":
         outer, inner, late, root, direct = S.node.make(env)
         if not (outer == 0 and inner == 0 and late == 2 and root == 0 and not direct):
